@@ -147,7 +147,7 @@ def analyse(db, ctx, which, ids):
     if f is None:
         ctx.fail(ids['unwrap'], f'Scanner::{which}', 'anchor', 'reason=anchor-missing: Scanner::' + which + ' body not found')
         return None
-    R = X.Rec(f, db)
+    R = X.AliasRec(f, db)      # `max` takes self by value: `let mut row = self.row` is the field from then on
     ctx.analysed(f)
 
     # ---- block scoring call
@@ -180,7 +180,7 @@ def analyse(db, ctx, which, ids):
     # row advance: exactly one store self.row = self.row + self.block_size, executed on every iteration
     loops = [L for L in f.loops() if sbi in L['body']]
     outer = max(loops, key=lambda L: len(L['body'])) if loops else None
-    rs = [s for s in X.stores(f, R) if m(('fld', ('p', 1), 'row'), norm(s['target'])) is not None]
+    rs = [s for s in X.stores(f, R) + R.alias_stores() if m(('fld', ('p', 1), 'row'), norm(s['target'])) is not None]
     adv_ok = False
     if outer and len(rs) == 1:
         v = norm(rs[0]['value'])
